@@ -9,15 +9,20 @@ theorem verdict : (classify Generated.factsC25).Sound (Holds (cfgOf Generated.fa
 #eval IO.println (verdictLine "C25" (classify Generated.factsC25))
 #print axioms verdict
 #print axioms failed_write_drops_entries
-#print axioms repaired_flush
+#print axioms oversized_block_unreadable
+#print axioms writeBlockF_spec
+#print axioms flushBlocks_spec
+#print axioms flushWF_spec
+#print axioms flush_chunks_bounded
+#print axioms addManyWF_spec
+#print axioms syncWF_ok_spec
 #print axioms holds_of_repaired
 #print axioms holds_repaired
-#print axioms flushWF_ok_spec
-#print axioms addManyWF_ok_spec
-#print axioms syncWF_ok_spec
 #print axioms finish_clean
 #print axioms Hv.BlockStore.flushWF_nofault
 #print axioms Hv.BlockStore.addManyWF_nofault
 #print axioms Hv.BlockStore.syncWF_nofault_disk
+#print axioms Hv.BlockStore.loadFile_badcnt
+#print axioms Hv.BlockStore.addManyWF_eq_fast
 
 end Hv.C25
